@@ -937,6 +937,11 @@ Definition C07_complete (c : ccfg) (r : round) : option string :=
                                            if is_rolling c g (get_kind o) then [(g, get_kind o, relative_name pns o)] else []
                                | None => [] end) (hr_children lresp) in
               if forallb (fun k => ck_mem k (names_of c lat)) order &&
+                 (* no revision came (back) to the parent in this sync: an adopted one is not among `before` *)
+                 negb (existsb (fun e => match is_api e with
+                                         | Some q => String.eqb (q_res q) rev_res && verb_eqb (q_verb q) VUpdate && accepted e &&
+                                                     is_orphan (e_pre e)
+                                         | None => false end) (r_events r)) &&
                  Nat.eqb (List.length after) 1 &&
                  Nat.eqb (List.length (revs_before c r sent)) 1 &&
                  existsb (is_latest_rev c sent) (revs_before c r sent) &&
